@@ -25,6 +25,8 @@ def dom(C, X):
     aX = abs(X)
     slack = Fraction(0)
     under = False
+    if aX > 1 and not all(in_domain(aX ** i) for i in range(1, len(C))):
+        return None          # a power overflows: even a zero lane gives 0 * inf = NaN in an unrolled scheme
     for i, c in enumerate(C):
         if c == 0:
             continue
